@@ -27,6 +27,10 @@ eor (0x3c,x)
 lda (0x05,s),y
 jmp (0x1f00)
 cmp.b 0xfe
+adc.w start+2,x
+lda (0x10+2),y
+lda [0x20+1],y
+and.b #0xf0|1
 .db 1,0x2a,start&0xff
 .dw start+2,0xbeef
 loop:
